@@ -10,7 +10,7 @@ from common import sx, rng_for
 from props.c04 import tree_sx, UNIT_ERRORS, heads, magnitude_trigger
 
 ID = 'C05'
-LEAN_MODULES = ['Cellml.Props.C05', 'Cellml.Tie.ConvertCases', 'Cellml.Tie.ConvertPw', 'Cellml.Tie.Convert']
+LEAN_MODULES = ['Cellml.Props.C05', 'Cellml.Tie.ConvertCases', 'Cellml.Tie.ConvertPw', 'Cellml.Tie.Convert', 'Cellml.Tie.ConvertN', 'Cellml.Props.C05Gen']
 N = {'quick': 50, 'thorough': 1200}
 PER_CTX = 24
 RULE = ('random unit families (clusters of equal dimension, different scale) with 4-7 variables; per family %d '
